@@ -3,6 +3,7 @@ package main
 import (
 	"bytes"
 	"fmt"
+	"strings"
 
 	"github.com/cloudwego/dynamicgo/internal/simrt"
 	"github.com/cloudwego/dynamicgo/thrift"
@@ -284,6 +285,47 @@ func runC05(w *W) {
 			c.facts["reload"] = "true"
 			w.Count("tree_reloaded")
 		}
+		// a node that was never loaded is the carrier of a ready-made value: it marshals as that value, whatever the
+		// object held before it went through the pool
+		if (how == "pool" || how == "freed+pool") && t.Chance(1, 2, "tree.carrier") {
+			vg.o.nodes = 0
+			cv := vg.value(rootT, vg.o.Depth)
+			craw := encodeThrift(nil, cv)
+			tree.Node = generic.NewNode(thrift.Type(rootT.Kind), craw)
+			w.NextOp(fmt.Sprintf("Marshal of an unloaded node from the pool (%s) carrying %d bytes", how, len(craw)))
+			w.opFacts = c.facts
+			out, err := tree.Marshal(opts)
+			w.opFacts = nil
+			if err != nil {
+				w.Failf("marshal-failed", c.facts, "Marshal of an unloaded node failed: %v", err)
+			}
+			if !bytes.Equal(out, craw) {
+				w.Failf("carrier-wrong-bytes", c.facts, "an unloaded node taken from the pool (%s) marshals to %x, it carries %x", how, clipb(out, 200), clipb(craw, 200))
+			}
+			w.Count("unloaded_carrier_marshalled")
+		}
+		// a failed load into the tree that is about to be reused: whatever it left behind must not show afterwards
+		if strings.HasPrefix(how, "reuse") && how != "reuse+ResetAll" && t.Chance(1, 3, "tree.failedload") {
+			vg.o.nodes = 0
+			bv := vg.value(rootT, vg.o.Depth)
+			braw := encodeThrift(nil, bv)
+			if len(braw) > 2 {
+				cut := 1 + t.Intn(len(braw)-1, "tree.failedload.cut")
+				bin := w.AllocData(braw[:cut], simrt.PlaceHeap)
+				tree.Node = generic.NewNode(thrift.Type(rootT.Kind), bin.B)
+				w.NextOp(fmt.Sprintf("Load of a truncated value (%d of %d bytes) into the tree that is reused next", cut, len(braw)))
+				w.opFacts = c.facts
+				err := tree.Load(rec, opts)
+				w.opFacts = nil
+				if err != nil {
+					w.Count("failed_load_before_reuse")
+				}
+				switch how {
+				case "reuse+ResetValue":
+					tree.ResetValue()
+				}
+			}
+		}
 		in := w.AllocData(raw, pickInt(t, "in.place", simrt.PlaceHeap, simrt.PlaceGuardEnd, simrt.PlaceReadOnly))
 		tree.Node = generic.NewNode(thrift.Type(rootT.Kind), in.B)
 		w.Sig(fmt.Sprintf("load:%s/k%d/n%d", how, rootT.Kind, sizeBucket(len(raw))))
@@ -452,6 +494,13 @@ func (c *c05) editRoot(tree *generic.PathNode, model *TVal, vg *vgen) {
 				step = pstep{Kind: 2, SKey: string(k.S)}
 			} else {
 				step = pstep{Kind: 3, IKey: k.I}
+			}
+		} else if t.Chance(1, 4, "edit.zerokey") {
+			// the zero value of the key type: what an unused slot of a hashed children table holds
+			if isStr {
+				step = pstep{Kind: 2, SKey: ""}
+			} else {
+				step = pstep{Kind: 3, IKey: 0}
 			}
 		} else if isStr {
 			step = pstep{Kind: 2, SKey: fmt.Sprintf("nk%d", t.Intn(50, "edit.newkey"))}
